@@ -118,6 +118,10 @@ func build(root string, tree []entry, fl flags) map[string]string {
 			put(j("ok1_templ.go"), g, t0.Add(time.Hour))
 		case "ok1_templ.go(stale)":
 			put(j("ok1_templ.go"), staleGo, t0.Add(-time.Hour))
+		case "ok1_templ.go(stale, same mtime)":
+			// edited in the same clock tick as the last generation (or a checkout with one timestamp): not newer, so
+			// never "up to date" for -lazy
+			put(j("ok1_templ.go"), staleGo, t0)
 		case "other.go":
 			put(j("other.go"), otherGo, t0)
 		case "notes.txt":
@@ -231,7 +235,14 @@ func worker(trees [][]entry, cfgs []cfg, g, n int) {
 			os.RemoveAll(base)
 			before := build(root, tree, c.fl)
 			want, mustFail := expect(before, c.fl)
-			err := generatecmd.Run(context.Background(), quiet, generatecmd.Arguments{Path: root, WorkerCount: c.workers, KeepOrphanedFiles: c.fl.keep, Lazy: c.fl.lazy, IncludeVersion: c.fl.version})
+			path := root
+			if c.symlink {
+				path = filepath.Join(base, "link")
+				if err := os.Symlink(root, path); err != nil {
+					violation("harness", "symlink: "+err.Error())
+				}
+			}
+			err := generatecmd.Run(context.Background(), quiet, generatecmd.Arguments{Path: path, WorkerCount: c.workers, KeepOrphanedFiles: c.fl.keep, Lazy: c.fl.lazy, IncludeVersion: c.fl.version})
 			runs++
 			if mustFail {
 				failing++
@@ -241,6 +252,9 @@ func worker(trees [][]entry, cfgs []cfg, g, n int) {
 			}
 			got := snapshot(root)
 			where := fmt.Sprintf("tree [%s] %s workers=%d", treeString(tree), c.fl, c.workers)
+			if c.symlink {
+				where += " path=symlink-to-the-project"
+			}
 			if (err != nil) != mustFail {
 				violation("exit-status", fmt.Sprintf("%s: Run returned %v, a file that cannot be generated present: %v", where, err, mustFail))
 			}
@@ -253,7 +267,7 @@ func worker(trees [][]entry, cfgs []cfg, g, n int) {
 			}
 			results[c.fl] = got
 			// running it again changes no content
-			err2 := generatecmd.Run(context.Background(), quiet, generatecmd.Arguments{Path: root, WorkerCount: c.workers, KeepOrphanedFiles: c.fl.keep, Lazy: c.fl.lazy, IncludeVersion: c.fl.version})
+			err2 := generatecmd.Run(context.Background(), quiet, generatecmd.Arguments{Path: path, WorkerCount: c.workers, KeepOrphanedFiles: c.fl.keep, Lazy: c.fl.lazy, IncludeVersion: c.fl.version})
 			runs++
 			if d := diff(got, snapshot(root)); d != "" || (err2 != nil) != mustFail {
 				violation("second-run-changes-tree", fmt.Sprintf("%s: second run: %s (err %v)", where, d, err2))
@@ -270,6 +284,7 @@ func worker(trees [][]entry, cfgs []cfg, g, n int) {
 type cfg struct {
 	fl      flags
 	workers int
+	symlink bool // the path given to the command is a symbolic link to the project directory
 }
 
 func main() {
@@ -381,7 +396,7 @@ func treesAndConfigs(thorough bool) ([][]entry, []cfg) {
 	// triples around the generated-file interactions, in every directory (thorough: every triple over 4 directories)
 	for _, d := range dirs {
 		for _, third := range []string{"ok2.templ", "bad.templ", "badgo.templ", "orphan_templ.go", "other.go"} {
-			for _, gen := range []string{"ok1_templ.go(up-to-date)", "ok1_templ.go(stale)"} {
+			for _, gen := range []string{"ok1_templ.go(up-to-date)", "ok1_templ.go(stale)", "ok1_templ.go(stale, same mtime)"} {
 				trees = append(trees, []entry{{"ok1.templ", d}, {gen, d}, {third, d}})
 				trees = append(trees, []entry{{"ok1.templ", d}, {gen, d}, {third, "a"}})
 			}
@@ -417,11 +432,12 @@ func treesAndConfigs(thorough bool) ([][]entry, []cfg) {
 	for _, k := range []bool{false, true} {
 		for _, l := range []bool{false, true} {
 			for _, v := range []bool{false, true} {
-				cfgs = append(cfgs, cfg{flags{k, l, v}, 2})
+				cfgs = append(cfgs, cfg{flags{k, l, v}, 2, false})
 			}
 		}
 	}
-	cfgs = append(cfgs, cfg{flags{}, 1}, cfg{flags{}, 4}, cfg{flags{true, true, false}, 1}, cfg{flags{true, true, false}, 4})
+	cfgs = append(cfgs, cfg{flags{}, 1, false}, cfg{flags{}, 4, false}, cfg{flags{true, true, false}, 1, false}, cfg{flags{true, true, false}, 4, false})
+	cfgs = append(cfgs, cfg{flags{}, 2, true}, cfg{flags{false, true, true}, 1, true})
 	return trees, cfgs
 }
 
